@@ -91,10 +91,13 @@ func vfc40CutRandom(rng *rand.Rand, s []vfc40AggSample, maxChunks int) []chunks.
 // vfc40Synthetic builds n aggregate samples of the logical series seen by one replica.
 // Windows are 5m aligned; shift moves every timestamp (a replica whose last scrape of each
 // window is earlier, as happens at chunk ends in real downsampled data).
-func vfc40Synthetic(rng *rand.Rand, firstWindow int64, n int, shift int64, gapProb float64) []vfc40AggSample {
+func vfc40Synthetic(rng *rand.Rand, firstWindow int64, n int, shift int64, gapProb float64, zeroish bool) []vfc40AggSample {
 	var out []vfc40AggSample
 	w := firstWindow
 	counter := float64(100 + rng.Intn(100))
+	if zeroish {
+		counter = 0 // an idle series: zero values are as ordinary as any other
+	}
 	for len(out) < n {
 		if gapProb > 0 && rng.Float64() < gapProb {
 			w += int64(1 + rng.Intn(5))
@@ -104,6 +107,9 @@ func vfc40Synthetic(rng *rand.Rand, firstWindow int64, n int, shift int64, gapPr
 		mn := float64(rng.Intn(50))
 		mx := mn + float64(rng.Intn(50))
 		inc := float64(rng.Intn(30))
+		if zeroish && rng.Intn(3) > 0 {
+			mn, mx, inc = 0, float64(rng.Intn(2)*rng.Intn(50)), 0
+		}
 		out = append(out, vfc40AggSample{
 			t: end, cnt: cnt, sum: cnt * (mn + mx) / 2, min: mn, max: mx,
 			firstRawT: w*vfc40Step + int64(rng.Intn(1000)), firstRawV: counter, counter: counter + inc, lastRawV: counter + inc,
@@ -227,7 +233,7 @@ func vfc40Gen(rng *rand.Rand) ([][]chunks.Meta, string) {
 	if rng.Intn(5) == 0 {
 		nSeries = 3
 	}
-	mode := vfkit.Pick(rng, []string{"synthetic-aligned", "synthetic-aligned", "synthetic-shifted", "synthetic-gappy", "downsampled"})
+	mode := vfkit.Pick(rng, []string{"synthetic-aligned", "synthetic-aligned", "synthetic-shifted", "synthetic-gappy", "downsampled", "synthetic-epoch"})
 	firstWindow := int64(5_000_000) + int64(rng.Intn(1000))
 	sizeOf := func() int {
 		switch rng.Intn(4) {
@@ -258,6 +264,18 @@ func vfc40Gen(rng *rand.Rand) ([][]chunks.Meta, string) {
 		return in, fmt.Sprintf("%s/series=%d/interval=%d", mode, nSeries, interval)
 	}
 	n0 := sizeOf()
+	if mode == "synthetic-epoch" {
+		// series around the epoch: starting exactly at window 0, or before it (negative timestamps) and running across 0
+		// or ending at it; with shift = step-1 the timestamps are window starts, so t = 0 itself occurs
+		switch rng.Intn(3) {
+		case 0:
+			firstWindow = 0
+		case 1:
+			firstWindow = -int64(rng.Intn(n0 + 1))
+		default:
+			firstWindow = -int64(n0) + int64(rng.Intn(3)) - 1
+		}
+	}
 	for i := range in {
 		ni := sizeOf()
 		off := int64(0)
@@ -270,11 +288,14 @@ func vfc40Gen(rng *rand.Rand) ([][]chunks.Meta, string) {
 		if mode == "synthetic-shifted" && i > 0 {
 			shift = vfkit.Pick(rng, []int64{1, 1000, 15000, 149999, 290000})
 		}
+		if mode == "synthetic-epoch" {
+			shift = vfkit.Pick(rng, []int64{0, 0, vfc40Step - 1, vfc40Step - 1, 1000})
+		}
 		gp := 0.0
 		if mode == "synthetic-gappy" {
 			gp = 0.05
 		}
-		s := vfc40Synthetic(rng, firstWindow+off, ni, shift, gp)
+		s := vfc40Synthetic(rng, firstWindow+off, ni, shift, gp, mode == "synthetic-epoch" && rng.Intn(2) == 0)
 		in[i] = vfc40CutRandom(rng, s, 4)
 	}
 	return in, fmt.Sprintf("%s/series=%d", mode, nSeries)
@@ -358,7 +379,10 @@ func vfc40Check(r *vfkit.Run, c int, in [][]chunks.Meta, class string) {
 					continue
 				}
 				fp := "aggregate-absent-in-merged-chunk"
-				if afterFull(k) && len(cnt) == 1 {
+				if cnt[len(cnt)-1] == 0 {
+					// the chunk's last sample sits at t=0: position class of its own (toChunk uses lastT==0 && lastV==0 as "empty")
+					fp = "aggregate-absent-in-merged-chunk:chunk-ends-at-t=0"
+				} else if afterFull(k) && len(cnt) == 1 {
 					// the only sample of the chunk is its first one: same class as below
 					fp = "missing-aggregate-sample:sum/min/max:first-sample-of-chunk-after-full-120-sample-chunk"
 				}
